@@ -983,6 +983,14 @@ func (s *Stage) finalize(file *finalFile) {
 		s.logDebug("Ignoring invalid (final):", file.name, existingState)
 		return
 	}
+	if current := s.fromCache(file.path); current == nil || current.hash != file.hash {
+		// While this file was held for its predecessor a newer version of
+		// the same name was received and validated: the staged bytes are the
+		// newer version's now, so this entry must be neither logged nor
+		// moved (the newer version's own entry is finalized in its turn)
+		s.logDebug("Ignoring superseded (final):", file.name)
+		return
+	}
 
 	if file.wait != nil {
 		file.wait.Stop()
